@@ -182,3 +182,53 @@ package process
 //@   loop 2 invariant (forall j int :: 0 <= j && j < i ==> !p.parameters[j].IsSelf && old(dom(gammaNameTypesCtx))[p.parameters[j].Ident] && !has(gammaNameTypesCtx, p.parameters[j].Ident))
 //@   loop 2 invariant (forall j int, k int :: 0 <= j && j < k && k < i ==> p.parameters[j].Ident != p.parameters[k].Ident)
 //@   loop 2 invariant (forall x string :: old(dom(gammaNameTypesCtx))[x] ==> has(gammaNameTypesCtx, x) || (exists j int :: 0 <= j && j < i && p.parameters[j].Ident == x))
+
+// ---------------------------------------------------------------------------------------------
+// C14: names. Two names are the same name if both are bound to run-time channels and the channels coincide,
+// or if neither is bound and the identifiers coincide.
+
+//@ macro sameName(a Name, b Name) bool = ite(a.Channel != nil && b.Channel != nil, a.Channel == b.Channel, a.Ident == b.Ident && (a.Channel != nil) == (b.Channel != nil))
+
+//@ contract (*Name).Initialized
+//@   ensures C14.initialized: result == (n.Channel != nil)
+//@   safety C09
+//@   pure
+
+//@ contract (*Name).Equal
+//@   ensures C14.equal: result == sameName(deref(name1), name2)
+//@   safety C09
+//@   pure
+
+//@ lemma C14.eqRefl: forall a Name :: sameName(a, a)
+//@ lemma C14.eqSym: forall a Name, b Name :: sameName(a, b) ==> sameName(b, a)
+//@ lemma C14.eqTrans: forall a Name, b Name, c Name :: sameName(a, b) && sameName(b, c) ==> sameName(a, c)
+
+// Substitution replaces exactly the occurrences that are the same name as `old`; the type and the polarity
+// annotation of an occurrence are never changed.
+//@ macro replacedBy(now Name, before Name, new Name) bool =
+//@    now.Channel == new.Channel && now.IsSelf == new.IsSelf && now.ControlChannel == new.ControlChannel &&
+//@    now.Type == before.Type && now.ExplicitPolarity == before.ExplicitPolarity &&
+//@    ite(before.Channel != nil && new.Ident == "", now.Ident == before.Ident && now.ChannelID == before.ChannelID, now.Ident == new.Ident && now.ChannelID == new.ChannelID)
+
+//@ contract (*Name).Substitute
+//@   ensures C14.substHit: sameName(old(deref(n)), old) ==> replacedBy(deref(n), old(deref(n)), new)
+//@   ensures C14.substMiss: !sameName(old(deref(n)), old) ==> deref(n) == old(deref(n))
+//@   safety C09
+
+//@ contract (*Name).ContainedIn
+//@   ensures C14.containedIn: result == (exists k int :: 0 <= k && k < len(names) && sameName(deref(n), names[k]))
+//@   loop 1 invariant (forall k int :: 0 <= k && k <= idx ==> !sameName(deref(n), names[k]))
+//@   safety C09
+//@   pure
+
+//@ contract nameExists
+//@   ensures C14.nameExists: result == (exists k int :: 0 <= k && k < len(names) && sameName(names[k], check))
+//@   loop 1 invariant (forall k int :: 0 <= k && k <= idx ==> !sameName(names[k], check))
+//@   safety C09
+//@   pure
+
+//@ contract nameInNames
+//@   ensures C14.nameInNames: result == (exists k int :: 0 <= k && k < len(names) && sameName(check, names[k]))
+//@   loop 1 invariant (forall k int :: 0 <= k && k <= idx ==> !sameName(check, names[k]))
+//@   safety C09
+//@   pure
